@@ -17,12 +17,13 @@
 EXTENDS RefCount, Json, IOUtils, CSV, TLCExt
 
 VARIABLES l, seen
-tvars == <<st, count, creator, explicit, h, last, l, seen>>
+tvars == <<st, count, creator, explicit, h, m, last, l, seen>>
 
 TraceObjType  == <<"Base", "Derived", "Base", "Derived">>
 TraceSlotType == <<"Base", "Base", "Base", "Derived", "Derived", "Derived">>
 PolicyAny     == [mc |-> "any", ma |-> "any", sm |-> "any", cmc |-> "any", cma |-> "any"]
 Kinds         == {"mc", "ma", "sm", "cmc", "cma"}
+MembersDerived == {"Derived"}
 
 TraceLines == ndJsonDeserialize(IOEnv.TRACE)
 N == Len(TraceLines)
@@ -53,6 +54,11 @@ Dispatch ==
   \/ A = "Bool" /\ Bool(Line.arg.s)
   \/ A = "Arrow" /\ Arrow(Line.arg.s)
   \/ A = "Compare" /\ Compare(Line.arg.s, Line.arg.t)
+  \/ A = "SetMember" /\ SetMember(Line.arg.o, Line.arg.t)
+  \/ A = "ClearMember" /\ ClearMember(Line.arg.o)
+  \/ A = "CopyCtorFromMember" /\ CopyCtorFromMember(Line.arg.s, Line.arg.t)
+  \/ A = "CopyAssignFromMember" /\ CopyAssignFromMember(Line.arg.s, Line.arg.t)
+  \/ A = "MoveAssignFromMember" /\ MoveAssignFromMember(Line.arg.s, Line.arg.t)
 
 \* the guard of the recorded action in the current state
 InRange == /\ ("s" \in DOMAIN Line.arg => Line.arg.s \in Slots)
@@ -73,6 +79,10 @@ Guard ==
        [] A = "Bool" -> CanBool(Line.arg.s)
        [] A = "Arrow" -> CanArrow(Line.arg.s)
        [] A = "Compare" -> CanCompare(Line.arg.s, Line.arg.t)
+       [] A = "SetMember" -> CanSetMember(Line.arg.o, Line.arg.t)
+       [] A = "ClearMember" -> CanClearMember(Line.arg.o)
+       [] A = "CopyCtorFromMember" -> CanCopyCtorFromMember(Line.arg.s, Line.arg.t)
+       [] A \in {"CopyAssignFromMember", "MoveAssignFromMember"} -> CanAssignFromMember(Line.arg.s, Line.arg.t)
        [] OTHER -> TRUE
 
 \* outcomes of this move that produce exactly the step that was taken
@@ -89,26 +99,29 @@ TInitVars ==
   /\ st = [o \in Objs |-> "unborn"]
   /\ count = Zero /\ creator = Zero /\ explicit = Zero
   /\ h = [s \in Slots |-> Unc]
-  /\ last = [a |-> "Init", arg |-> <<>>, cls |-> "", exp |-> [ret |-> "void", died |-> <<>>] @@ Proj(st, count, h)]
+  /\ m = [o \in Objs |-> Unc]
+  /\ last = [a |-> "Init", arg |-> <<>>, cls |-> "", exp |-> [ret |-> "void", died |-> <<>>] @@ Proj(st, count, h, m)]
 TInit == TInitVars /\ l = 1 /\ seen = [k \in Kinds |-> Outs(k)]
 
 TStep == /\ l <= N /\ A # "Reset" /\ ~Skipped
          /\ Guard
          /\ Dispatch /\ last'.a = A /\ ObsMatches
-         /\ seen' = IF IsMove THEN [seen EXCEPT ![Kind] = @ \cap Consistent] ELSE seen
+         \* (a step that destroys an object changes counts by cascade as well: it is not used to narrow `seen`)
+         /\ seen' = IF IsMove /\ last'.exp.died = <<>> THEN [seen EXCEPT ![Kind] = @ \cap Consistent] ELSE seen
          /\ l' = l + 1
          /\ Report
 \* a refused action: legitimate only if the specification does not allow the action here
 TSkip == /\ l <= N /\ A # "Reset" /\ Skipped
          /\ ~Guard
-         /\ UNCHANGED <<st, count, creator, explicit, h, last, seen>>
+         /\ UNCHANGED <<st, count, creator, explicit, h, m, last, seen>>
          /\ l' = l + 1
          /\ Report
 TReset == /\ l <= N /\ A = "Reset"
           /\ st' = [o \in Objs |-> "unborn"]
           /\ count' = Zero /\ creator' = Zero /\ explicit' = Zero
           /\ h' = [s \in Slots |-> Unc]
-          /\ last' = [a |-> "Init", arg |-> <<>>, cls |-> "", exp |-> [ret |-> "void", died |-> <<>>] @@ Proj(st', count', h')]
+          /\ m' = [o \in Objs |-> Unc]
+          /\ last' = [a |-> "Init", arg |-> <<>>, cls |-> "", exp |-> [ret |-> "void", died |-> <<>>] @@ Proj(st', count', h', m')]
           /\ UNCHANGED seen
           /\ l' = l + 1
           /\ Report
